@@ -55,9 +55,11 @@ def exec_job(job):
         ace = b if m["who"] == "b" else t
         addr = ace.srcaddr if m["fld"] == "smem" else ace.dstaddr
         mem = cur[m["who"]][m["fld"]]
-        e2 = dict(e, i=k, exc="", rets=[False] * 5)
+        e2 = dict(events[-1], i=k, exc="", rets=[False] * 5)      # texts / members as they stand after the steps so far
         try:
-            if m["op"] == "rebuild":      # the same entry built again (members are part of it): same answers expected
+            if m["op"] == "clearport":    # the port expression of one side removed through the port's own setter: the entry now matches every port
+                (ace.srcport if m["fld"] == "smem" else ace.dstport).line = ""
+            elif m["op"] == "rebuild":      # the same entry built again (members are part of it): same answers expected
                 if m["how"] == "copy":
                     ace = ace.copy()
                 elif m["how"] == "data":
@@ -82,7 +84,9 @@ def exec_job(job):
             events.append(e2)
             break
         for who in "bt":
-            e2[who] = dict(e[who], smem=[lex.lex(x) for x in cur[who]["smem"]], dmem=[lex.lex(x) for x in cur[who]["dmem"]])
+            e2[who] = dict(events[-1][who], smem=[lex.lex(x) for x in cur[who]["smem"]], dmem=[lex.lex(x) for x in cur[who]["dmem"]])
+        if m["op"] == "clearport":
+            e2[m["who"]] = dict(e2[m["who"]], toks=lex.lex((b if m["who"] == "b" else t).line))
         ask(e2)
         events.append(e2)
     return events
@@ -236,12 +240,12 @@ def random_pair(rng, plat, groups):
         s = rng.choice(spellings_ace(x["s"], plat))
         d = rng.choice(spellings_ace(x["d"], plat))
         if groups and rng.random() < 0.35:
-            s = ("addrgroup " if plat == "nxos" else "object-group ") + "S" + who
+            s = ("addrgroup " if plat == "nxos" else "object-group ") + "S" + (who if rng.random() < 0.7 else "X")     # sometimes the same name, other members
             base = x["s"]
             smem = [rng.choice(spellings_ace(m, plat)) for m in
                     [rng.choice([base, narrow_w(rng, base), rand_w(rng)]) for _ in range(rng.randint(0, 3))]]
         if groups and rng.random() < 0.2:
-            d = ("addrgroup " if plat == "nxos" else "object-group ") + "D" + who
+            d = ("addrgroup " if plat == "nxos" else "object-group ") + "D" + (who if rng.random() < 0.7 else "X")
             base = x["d"]
             dmem = [rng.choice(spellings_ace(m, plat)) for m in
                     [rng.choice([base, narrow_w(rng, base)]) for _ in range(rng.randint(0, 2))]]
@@ -272,6 +276,9 @@ def random_jobs(rng, n, tid0, groups=True):
                     muts.append(dict(who=who, fld=fld, op=op, idx=rng.randrange(n_) if n_ else 0,
                                      text=rng.choice(spellings_ace(w, plat) + (["any"] if rng.random() < 0.3 else []))))
         muts = muts[:2]
+        if rng.random() < 0.12:
+            who = rng.choice("bt")
+            muts.append(dict(who=who, fld=rng.choice(["smem", "dmem"]), op="clearport"))
         if rng.random() < 0.25:
             muts.insert(rng.randint(0, len(muts)), dict(who=rng.choice("bt"), fld="smem", op="rebuild", how=rng.choice(["copy", "line", "data"])))
         if muts:
@@ -308,6 +315,38 @@ def crossed_jobs(rng, n, tid0):
     return jobs
 
 
+def blk(i, ln):
+    """the i-th block of prefix length ln as a wildcard (construction only)"""
+    v = (i << (32 - ln)) & 0xFFFFFFFF
+    return dict(base=lex.int_bits(v), mask=[0] * ln + [1] * (32 - ln))
+
+
+def adjacent_jobs(rng, n, tid0):
+    """the top names a group of two or three equal-size neighbouring blocks (aligned or not); the bottom is one of them, the
+    block before, the block after, or the smallest prefix that contains the run"""
+    jobs, t = [], tid0
+    for _ in range(n):
+        plat = rng.choice(["ios", "nxos"])
+        kw = "addrgroup " if plat == "nxos" else "object-group "
+        act, proto = rng.choice(["permit", "deny"]), rng.choice(["ip", "ip", "tcp", "udp"])
+        ln = rng.randint(8, 32)
+        k = rng.randrange(1, 2 ** min(ln, 20) - 4)
+        run = [k + j for j in range(rng.choice([2, 2, 3]))]
+        mem = [rng.choice(spellings_ace(blk(i, ln), plat)) for i in run]
+        rng.shuffle(mem) if rng.random() < 0.3 else None
+        cand = [blk(run[0] - 1, ln), blk(run[-1] + 1, ln), blk(run[0], ln), blk(run[-1], ln), blk(run[0] >> 1, ln - 1), blk(run[0] >> 2, ln - 2)]
+        baddr = rng.choice(spellings_ace(rng.choice(cand), plat))
+        if rng.random() < 0.5:
+            top = dict(line=f"{act} {proto} {kw}GS any", smem=mem, dmem=[])
+            bot = dict(line=f"{act} {proto} {baddr} any", smem=[], dmem=[])
+        else:
+            top = dict(line=f"{act} {proto} any {kw}GD", smem=[], dmem=mem)
+            bot = dict(line=f"{act} {proto} any {baddr}", smem=[], dmem=[])
+        jobs.append(dict(tid=t, plat=plat, b=bot, t=top, origin="adjacent-blocks"))
+        t += 1
+    return jobs
+
+
 def windows():
     return [lex.Window(8, 0x0A000000, True, w=2), lex.Window(22, 0xC0A80000 | 0x1400, False, w=2), lex.Window(30, 0xAC10FE00, True, w=2)]
 
@@ -327,6 +366,7 @@ def run_shadow(prop, tier, seed, groups):
     jobs += random_jobs(rng, 6000 if tier == "quick" else 150000, len(jobs) + 1, groups)
     if groups:
         jobs += crossed_jobs(rng, 400 if tier == "quick" else 10000, len(jobs) + 1)
+        jobs += adjacent_jobs(rng, 300 if tier == "quick" else 8000, len(jobs) + 1)
     ev_lists = core.pmap(exec_job, jobs)
     events = [e for evs in ev_lists for e in evs]
     verdicts, vstats = core.validate("Trace_Shadow", events)
